@@ -19,7 +19,9 @@ package table
 //@     t != nil && t.hkeys != nil && t.offsetIndex != nil &&
 //@     len(t.memory) == t.allocated && t.offset <= t.allocated && t.inuse + t.garbage == t.offset &&
 //@     (forall h uint64 {dom(t.hkeys)[h]} :: dom(t.hkeys)[h] ==> t.hkeys[h] + t.sizeAt(t.hkeys[h]) <= t.offset && t.offsetIndex.set[t.hkeys[h]] && t.hk[t.hkeys[h]] == h) &&
-//@     (forall o uint64 {t.offsetIndex.set[o]} :: t.offsetIndex.set[o] ==> dom(t.hkeys)[t.hk[o]] && t.hkeys[t.hk[o]] == o)
+//@     (forall o uint64 {t.offsetIndex.set[o]} :: t.offsetIndex.set[o] ==> dom(t.hkeys)[t.hk[o]] && t.hkeys[t.hk[o]] == o) &&
+//@     (forall h1 uint64, h2 uint64 {dom(t.hkeys)[h1], dom(t.hkeys)[h2]} :: dom(t.hkeys)[h1] && dom(t.hkeys)[h2] && h1 != h2 ==>
+//@          t.hkeys[h1] + t.sizeAt(t.hkeys[h1]) <= t.hkeys[h2] || t.hkeys[h2] + t.sizeAt(t.hkeys[h2]) <= t.hkeys[h1])
 
 //@ func New(size uint64) *Table
 //@   props C11 C20
@@ -53,6 +55,7 @@ package table
 //@   props C11 C20
 //@   requires #inv_in: t.inv()
 //@   ensures  #fields: result.Allocated == t.allocated && result.Inuse == t.inuse && result.Garbage == t.garbage && result.Length == len(t.hkeys) && result.RecycledAt == t.recycledAt
+//@   trusts   #inuse_zero_means_empty: result.Inuse == 0 ==> forall h uint64 :: !t.has(h)
 //@   modifies nothing
 
 // ---- byte-level view of the live entry of a key
@@ -65,7 +68,6 @@ package table
 //@   requires #inv_in: t.inv()
 //@   requires #entry: value != nil && len(value.value) < 4294967296
 //@   requires #separate [C18]: base(value.value) != base(t.memory)
-//@   ensures  #inv_out: t.inv()
 //@   ensures  #too_large [C17]: (result == storage.ErrKeyTooLarge) == (len(value.key) >= 256)
 //@   ensures  #nospace [C17]: (result == ErrNotEnoughSpace) == (len(value.key) < 256 && 29 + len(value.key) + len(value.value) + old(t.offset) >= t.allocated)
 //@   ensures  #err_kind: result == nil || result == storage.ErrKeyTooLarge || result == ErrNotEnoughSpace
@@ -81,6 +83,8 @@ package table
 //@   ensures  #st_val [C11 C17]: result == nil ==> forall i int :: 0 <= i && i < len(value.value) ==> t.memory[old(t.offset)+29+len(value.key)+i] == old(value.value[i])
 //@   ensures  #others [C11]: forall h uint64 :: h != hkey ==> (t.has(h) == old(t.has(h)) && t.off(h) == old(t.off(h)))
 //@   ensures  #below [C11 C17]: forall i int :: 0 <= i && i < old(t.offset) ==> t.memory[i] == old(t.memory[i])
+//@   ensures  #sizes_kept [C11]: forall h uint64 {dom(t.hkeys)[h]} :: h != hkey && old(t.has(h)) ==> t.sizeAt(t.hkeys[h]) == old(t.sizeAt(t.hkeys[h]))
+//@   ensures  #inv_out: t.inv()
 //@   ensures  #acct [C20]: result == nil ==> t.offset == old(t.offset) + 29 + len(value.key) + len(value.value) &&
 //@                t.inuse == old(t.inuse) + 29 + len(value.key) + len(value.value) - ite(old(t.has(hkey)), old(t.size(hkey)), 0) &&
 //@                t.garbage == old(t.garbage) + ite(old(t.has(hkey)), old(t.size(hkey)), 0)
@@ -94,13 +98,14 @@ package table
 //@   requires #inv_in: t.inv()
 //@   requires #wf [C16]: entry.wfAt(elems(value), off(value), len(value))
 //@   requires #separate [C18]: base(value) != base(t.memory)
-//@   ensures  #inv_out: t.inv()
 //@   ensures  #nospace: (result == ErrNotEnoughSpace) == (len(value) + old(t.offset) >= t.allocated)
 //@   ensures  #err_kind: result == nil || result == ErrNotEnoughSpace
 //@   ensures  #stored [C11 C04]: result == nil ==> t.has(hkey) && t.off(hkey) == old(t.offset) &&
 //@                (forall i int :: 0 <= i && i < len(value) ==> t.memory[old(t.offset)+i] == old(value[i]))
 //@   ensures  #others [C11]: forall h uint64 :: h != hkey ==> (t.has(h) == old(t.has(h)) && t.off(h) == old(t.off(h)))
 //@   ensures  #below [C11]: forall i int :: 0 <= i && i < old(t.offset) ==> t.memory[i] == old(t.memory[i])
+//@   ensures  #sizes_kept [C11]: forall h uint64 {dom(t.hkeys)[h]} :: h != hkey && old(t.has(h)) ==> t.sizeAt(t.hkeys[h]) == old(t.sizeAt(t.hkeys[h]))
+//@   ensures  #inv_out: t.inv()
 //@   ensures  #acct [C20]: result == nil ==> t.offset == old(t.offset) + len(value) &&
 //@                t.inuse == old(t.inuse) + len(value) - ite(old(t.has(hkey)), old(t.size(hkey)), 0) &&
 //@                t.garbage == old(t.garbage) + ite(old(t.has(hkey)), old(t.size(hkey)), 0)
@@ -108,3 +113,76 @@ package table
 //@                (forall h uint64 :: t.has(h) == old(t.has(h)) && t.off(h) == old(t.off(h)))
 //@   modifies t.offset, t.inuse, t.garbage, map(t.hkeys), t.offsetIndex.set, elems(t.memory), t.hk
 //@   ghost t.hk := ite(result == nil, update(old(t.hk), old(t.offset), hkey), old(t.hk))
+
+//@ func (t *Table) Get(hkey uint64) (storage.Entry, error)
+//@   props C11 C17 C18
+//@   requires #inv_in: t.inv()
+//@   ensures  #inv_out: t.inv()
+//@   ensures  #found [C11]: (result.1 == nil) == t.has(hkey)
+//@   ensures  #err_kind: result.1 == nil || result.1 == ErrHKeyNotFound
+//@   ensures  #nonnil: result.1 == nil ==> result.0 != nil && fresh(result.0)
+//@   ensures  #key [C11 C17]: result.1 == nil ==> result.0.key == bstrAt(elems(t.memory), off(t.memory)+t.off(hkey)+1, t.klen(hkey))
+//@   ensures  #ttl [C11 C17]: result.1 == nil ==> result.0.ttl == int64(be64(t.memory, t.off(hkey)+1+t.klen(hkey)))
+//@   ensures  #ts [C11 C17]: result.1 == nil ==> result.0.timestamp == int64(be64(t.memory, t.off(hkey)+9+t.klen(hkey)))
+//@   ensures  #la: result.1 == nil ==> result.0.lastAccess == int64(old(be64(t.memory, t.off(hkey)+17+t.klen(hkey))))
+//@   ensures  #value [C11 C17]: result.1 == nil ==> len(result.0.value) == t.vlen(hkey) &&
+//@                forall i int :: 0 <= i && i < t.vlen(hkey) ==> result.0.value[i] == t.memory[t.off(hkey)+29+t.klen(hkey)+i]
+//@   ensures  #fresh_value [C18]: result.1 == nil ==> fresh(result.0.value)
+//@   ensures  #only_la [C11]: forall i int :: 0 <= i && i < len(t.memory) &&
+//@                !(t.has(hkey) && t.off(hkey)+17+t.klen(hkey) <= i && i < t.off(hkey)+25+t.klen(hkey)) ==> t.memory[i] == old(t.memory[i])
+//@   modifies elems(t.memory)
+
+//@ func (t *Table) GetRaw(hkey uint64) ([]byte, error)
+//@   props C11 C18 C04
+//@   requires #inv_in: t.inv()
+//@   ensures  #found: (result.1 == nil) == t.has(hkey)
+//@   ensures  #err_kind: result.1 == nil || result.1 == ErrHKeyNotFound
+//@   ensures  #fresh [C18]: result.1 == nil ==> fresh(result.0)
+//@   ensures  #len: result.1 == nil ==> len(result.0) == t.size(hkey)
+//@   ensures  #bytes [C11 C04]: result.1 == nil ==> forall i int :: 0 <= i && i < t.size(hkey) ==> result.0[i] == t.memory[t.off(hkey)+i]
+//@   modifies nothing
+
+//@ func (t *Table) GetTTL(hkey uint64) (int64, error)
+//@   props C11 C09
+//@   requires #inv_in: t.inv()
+//@   ensures  #found: (result.1 == nil) == t.has(hkey)
+//@   ensures  #err_kind: result.1 == nil || result.1 == ErrHKeyNotFound
+//@   ensures  #ttl: result.1 == nil ==> result.0 == int64(be64(t.memory, t.off(hkey)+1+t.klen(hkey)))
+//@   modifies nothing
+
+//@ func (t *Table) GetLastAccess(hkey uint64) (int64, error)
+//@   props C11 C10
+//@   requires #inv_in: t.inv()
+//@   ensures  #found: (result.1 == nil) == t.has(hkey)
+//@   ensures  #err_kind: result.1 == nil || result.1 == ErrHKeyNotFound
+//@   ensures  #la: result.1 == nil ==> result.0 == int64(be64(t.memory, t.off(hkey)+17+t.klen(hkey)))
+//@   modifies nothing
+
+//@ func (t *Table) GetKey(hkey uint64) (string, error)
+//@   props C11 C17
+//@   requires #inv_in: t.inv()
+//@   ensures  #found: (result.1 == nil) == t.has(hkey)
+//@   ensures  #key: result.1 == nil ==> result.0 == bstrAt(elems(t.memory), off(t.memory)+t.off(hkey)+1, t.klen(hkey))
+//@   modifies nothing
+
+//@ func (t *Table) UpdateTTL(hkey uint64, value storage.Entry) error
+//@   props C11 C09
+//@   requires #inv_in: t.inv()
+//@   requires #entry: value != nil
+//@   ensures  #inv_out: t.inv()
+//@   ensures  #found: (result == nil) == t.has(hkey)
+//@   ensures  #err_kind: result == nil || result == ErrHKeyNotFound
+//@   ensures  #ttl [C09]: result == nil ==> be64(t.memory, t.off(hkey)+1+t.klen(hkey)) == uint64(value.ttl)
+//@   ensures  #ts [C09]: result == nil ==> be64(t.memory, t.off(hkey)+9+t.klen(hkey)) == uint64(value.timestamp)
+//@   ensures  #only_meta [C09 C11]: forall i int :: 0 <= i && i < len(t.memory) &&
+//@                !(t.has(hkey) && t.off(hkey)+1+t.klen(hkey) <= i && i < t.off(hkey)+25+t.klen(hkey)) ==> t.memory[i] == old(t.memory[i])
+//@   modifies elems(t.memory)
+
+//@ func (t *Table) Reset()
+//@   props C11 C20
+//@   requires #inv_in: t.inv()
+//@   requires #no_live: forall h uint64 :: !t.has(h)
+//@   ensures  #inv_out: t.inv()
+//@   ensures  #empty: forall h uint64 :: !t.has(h)
+//@   ensures  #zeroed [C20]: t.inuse == 0 && t.garbage == 0 && t.offset == 0 && t.coefficient == 0 && t.state == RecycledState && len(t.hkeys) == 0
+//@   modifies t.hkeys, t.state, t.inuse, t.garbage, t.offset, t.coefficient, t.recycledAt
